@@ -5,7 +5,7 @@ outside with ``os.kill``) are wrapped in ``tornado.process.Subprocess`` on a **r
 the main thread (SIGCHLD handling needs it; the virtual loop is not used here).  A case is 1-4
 children (exit status 0..255 or a signal from HUP/INT/KILL/TERM/USR1/PIPE; API ``set_exit_callback`` or
 ``wait_for_exit(raise_error=T/F)``) plus a *program*: a generated permutation of the operations
-``register(i)`` and ``release(i)`` with 0-2 event-loop iterations after each.  ``release`` closes the
+``register(i)`` and ``release(i)`` with 0-5 event-loop iterations after each.  ``release`` closes the
 child's stdin (or sends the signal) and then blocks in ``os.waitid(P_PID, pid, WEXITED | WNOWAIT)``, which
 returns — without sleeping and without reaping — exactly when the child is dead (the wait itself is a
 ``select`` on a pidfd capped at 15 s; the cap is a harness error, exit 2).  So "exit before registration"
@@ -65,6 +65,11 @@ Sensitivity (quick tier, seed 1, one mutant at a time on a scratch copy):
   * ``Subprocess._waiting`` made a ``weakref.WeakValueDictionary`` (an object the caller no longer
     references drops out of the registry; SIGCHLD reaps nothing) ......... caught (C42.not_reported, by the
     ``drop_ref`` cases with exit after registration)
+  * ``_cleanup`` loops over ``os.waitpid(-1, WNOHANG)`` while a registration is pending and dispatches by
+    pid (a child that terminated before its own registration is reaped by the handler and its status
+    dropped; the late registration never fires) .......................... caught at seeds 1..3
+    (C42.not_reported, systematically by the 8 fixed "late registration behind a pending one" cases:
+    all API pairs x exit/signal, and by generated programs with 5 loop iterations after a release)
   * DESIGN's "callback not cleared before invocation" is equivalent for every history in the
     statement's domain (``_set_returncode`` runs once per reaped pid), so it was replaced by the above.
 """
@@ -87,10 +92,10 @@ READY = True
 RULE = (
     "Hypothesis: 1-4 real /bin/sh children (status 0..255 biased to 0,1,2,126,127,128,255, or signal "
     "HUP/INT/KILL/TERM/USR1/PIPE sent by the child itself or from outside; callback or future API; "
-    "raise_error T/F), a permutation of register/release operations with 0-2 loop iterations after each, "
+    "raise_error T/F), a permutation of register/release operations with 0-5 loop iterations after each, "
     "optional probe child afterwards, optional SIGCHLD blocking so that all deaths arrive as ONE SIGCHLD, "
     "optional dropping of every reference to the Subprocess after registration; "
-    "plus 7 fixed cases covering every listed status and signal and real coalescing; "
+    "plus 15 fixed cases covering every listed status and signal and real coalescing; "
     "non-trivial = >=2 children with different timing classes (exit before vs after registration) or a "
     "signal exit; distinct = SHA-1 of the case"
 )
@@ -416,6 +421,23 @@ def run_case(ctx, case):
                 labels.add("coalesced_release")
         if y:
             run = 0
+    # a child that died unregistered, the loop ran (>=3 iterations: handler dispatched) while another
+    # registration was pending, and only then was it registered
+    reg, rel, loop_since_death = set(), set(), {}
+    for op, i, y in case["program"]:
+        i %= m
+        if op == "register":
+            if i in loop_since_death and loop_since_death[i] >= 3 and i not in reg and any(j in reg and j not in rel for j in range(m)):
+                labels.add("late_registration_after_handler_ran_with_other_pending")
+            reg.add(i)
+        else:
+            rel.add(i)
+            if i not in reg:
+                loop_since_death.setdefault(i, 0)
+        if y and any(j in reg and j not in rel for j in range(m)):
+            for j in loop_since_death:
+                if j not in reg:
+                    loop_since_death[j] += y
     if case.get("coalesce"):
         labels.add("sigchld_blocked")
         n_after = sum(1 for t in timing.values() if t == "after")
@@ -452,7 +474,7 @@ def case_s(draw):
     m = len(children)
     ops = [("register", i) for i in range(m)] + [("release", i) for i in range(m)]
     order = draw(st.permutations(ops))
-    program = [(op, i, draw(st.sampled_from([0, 0, 1, 2]))) for op, i in order]
+    program = [(op, i, draw(st.sampled_from([0, 0, 1, 2, 5]))) for op, i in order]
     return {"children": children, "program": program, "probe": draw(st.sampled_from([None, "callback", "future"])),
             "coalesce": draw(st.booleans())}
 
@@ -483,6 +505,17 @@ def fixed_cases():
            "probe": "callback"}
 
 
+    # late registration behind a pending one: A is registered and still running; B exits while it is
+    # not registered yet and the loop runs (so the SIGCHLD handler runs with A pending and B's zombie
+    # around); only then is B registered.  B's status must still be there for it.  All API pairs.
+    for api_a in ("callback", "future"):
+        for api_b in ("callback", "future"):
+            for n_b, kind_b in ((1, ("status", 42)), (2, ("signal", "TERM", "external"))):
+                children = [ch(("status", 0), api_a, False)] + [ch(kind_b, api_b, False) for _ in range(n_b)]
+                program = [("register", 0, 1)]
+                program += [("release", j, 0) for j in range(1, n_b)] + [("release", n_b, 6)]
+                program += [("register", j, 2) for j in range(1, n_b + 1)] + [("release", 0, 0)]
+                yield {"children": children, "program": program, "probe": None, "coalesce": False}
     # the caller keeps no reference to the Subprocess objects (only callback / future)
     yield {"children": [dict(ch(("status", 5), "future", True), drop_ref=True), dict(ch(("status", 0), "callback"), drop_ref=True),
                         dict(ch(("signal", "TERM", "external"), "future", False), drop_ref=True)],
